@@ -55,6 +55,8 @@ structure V3 (K : Type) where
   z : K
 deriving Repr, BEq, DecidableEq
 
+instance {K} [Inhabited K] : Inhabited (V2 K) := ⟨⟨default, default⟩⟩
+instance {K} [Inhabited K] : Inhabited (V3 K) := ⟨⟨default, default, default⟩⟩
 instance {K} [Add K] : Add (V2 K) := ⟨fun a b => ⟨a.x + b.x, a.y + b.y⟩⟩
 instance {K} [Sub K] : Sub (V2 K) := ⟨fun a b => ⟨a.x - b.x, a.y - b.y⟩⟩
 instance {K} [Mul K] : HMul (V2 K) K (V2 K) := ⟨fun a k => ⟨a.x * k, a.y * k⟩⟩
@@ -77,6 +79,29 @@ deriving Repr, BEq, DecidableEq
 /-- `Coordinate::get` on a 2-D point -/
 def getc {K : Type} (p : V2 K) (i : Nat) : K := if i == 0 then p.x else p.y
 
+/-- the numeric state of a `FatLine` -/
+structure FatLineT (K : Type) where
+  d_min : K
+  d_max : K
+  coeff : T3 K K K
+deriving Repr, BEq
+
+/-- `ClipResult` of curve_curve_clip.rs -/
+inductive ClipResult (K : Type) where
+  | None
+  | Some (r : T2 K K)
+  | SecondCurveIsLinear
+deriving Repr, BEq
+
+/-- `f64::MAX`, `f64::MIN`, `f64::INFINITY`, `f64::NEG_INFINITY`, `f64::EPSILON` -/
+class FConsts (K : Type) where
+  fmaxval : K
+  fminval : K
+  finf : K
+  fneginf : K
+  feps : K
+export FConsts (fmaxval fminval finf fneginf feps)
+
 /-- `f64::abs` -/
 class FAbs (K : Type) where fabs : K → K
 export FAbs (fabs)
@@ -97,6 +122,7 @@ instance : FAbs Float := ⟨Float.abs⟩
 instance : FSqrt Float := ⟨Float.sqrt⟩
 instance : FSignum Float := ⟨fun a => if a.isNaN then a else if a.toBits >>> 63 == 1 then -1.0 else 1.0⟩
 instance : OfInt Float := ⟨Float.ofInt⟩
+instance : FConsts Float := ⟨Float.ofBits 0x7fefffffffffffff, Float.ofBits 0xffefffffffffffff, Float.ofBits 0x7ff0000000000000, Float.ofBits 0xfff0000000000000, Float.ofBits 0x3cb0000000000000⟩
 instance : FAbs Rat := ⟨fun x => if x < 0 then -x else x⟩
 instance : FSignum Rat := ⟨fun x => if x < 0 then -1 else 1⟩
 instance : OfInt Rat := ⟨fun n => (n : Rat)⟩
@@ -114,7 +140,7 @@ def fmax {K} [LT K] [DecidableLT K] [BEq K] (a b : K) : K := if a < b then b els
 def foldlT {α β : Type} (l : List α) (init : β) (f : β → α → β) : β := List.foldl f init l
 
 /-- `v[i]` (Rust panics out of range; the model returns a default, and the properties never index out of range) -/
-def idx {α} [Inhabited α] (l : List α) (i : Nat) : α := l[i]!
+def listGet {α} [Inhabited α] (l : List α) (i : Nat) : α := l[i]!
 
 /-- `a & b` on crossing counts -/
 def bitand (a b : Int) : Int :=
